@@ -140,3 +140,18 @@ Theorem C01_grow_refines_value_semantics : forall hist, gguarded gw0 hist = true
   gtrace gM_step gw0 hist = gtrace gS_step gw0 hist.
 Proof. exact grow_refinement. Qed.
 Print Assumptions C01_grow_refines_value_semantics.
+
+(* util.immutable_filter AS WRITTEN IN THE SOURCE (Gen_c01.source_filter, regenerated from its AST on every run) is the dispatch the
+   implementation model M uses for every filtered argument (Heap.model_filter inside m_src): copy-and-freeze a writeable argument, keep a
+   read-only one.  Freezing a writeable argument in place, or returning an unfrozen copy, changes source_filter and breaks this theorem. *)
+Theorem C01_immutable_filter_matches_model : forall w, source_filter w = model_filter w.
+Proof. exact (fun w => match w with true => eq_refl | false => eq_refl end). Qed.
+Print Assumptions C01_immutable_filter_matches_model.
+
+(* ... and every array-taking entry point sends an ndarray argument through it (own_data=True: frozen in place and kept), as the model's
+   constructor routes say: Series.__init__, Index._extract_labels, TypeBlocks.from_blocks, TypeBlocks.append, Frame.__init__. *)
+Theorem C01_constructor_routes_match_source :
+  [route_series_init; route_index_labels; route_tb_from_blocks; route_tb_append; route_frame_init; route_frame_init_own_data]
+  = [RFilter; RFilter; RFilter; RFilter; RFilter; ROwn].
+Proof. exact eq_refl. Qed.
+Print Assumptions C01_constructor_routes_match_source.
